@@ -83,6 +83,19 @@ namespace DFS
 	  else
 	    return buf;
 	}
+      // Don't allocate more than the file can supply; len may come
+      // from a (possibly corrupt) field of the file itself.
+      f_.seekg(0, f_.end);
+      const std::streamoff file_size = f_.tellg();
+      if (file_size < 0 || !f_.seekg(pos, f_.beg))
+	{
+	  f_.clear();
+	  return buf;
+	}
+      if (static_cast<unsigned long>(file_size) <= pos)
+	return buf;		// nothing to read at or beyond EOF
+      if (len > static_cast<unsigned long>(file_size) - pos)
+	len = static_cast<unsigned long>(file_size) - pos;
       buf.resize(len);
       f_.read(reinterpret_cast<char*>(buf.data()), len);
       buf.resize(f_.gcount());
